@@ -253,11 +253,15 @@ _set_setstate(Bucket *self, PyObject *args)
         self->size=l;
     }
 
-    for (i=self->len; --i >= 0; )
+    /* Each old key leaves the set before it is released: releasing it may
+     * run arbitrary code (a finalizer, a weakref callback) that looks at
+     * this set.
+     */
+    while (self->len > 0)
     {
-        DECREF_KEY(self->keys[i]);
+        self->len--;
+        DECREF_KEY(self->keys[self->len]);
     }
-    self->len=0;
 
     if (self->next)
     {
